@@ -29,6 +29,8 @@ DecVectors ==
   \cup {M(a) \o RepOf(a) \o M(b) \o RepOf(b) : a \in Range(MarkerLetters), b \in Range(MarkerLetters)}
   \* escaped carets and other caret sequences are not markers
   \cup {<<94, 94, l, 233>> : l \in Range(MarkerLetters)} \cup {<<94, 67, 232, 94, 94, 76, 232>>, <<94, 118, 233>>, <<94>>, <<233, 94>>, <<94, 94>>, <<94, 56>>, <<94, 67, 232, 94, 56, 232>>}
+  \* a caret followed by every byte value, alone and followed by a Latin-1 high byte
+  \cup {<<94, b>> : b \in 0..255} \cup {<<94, b, 233>> : b \in 1..255}
   \* byte patterns that look like byte-order marks: at the start and at the start of a segment
   \cup {<<255, 254, 65>>, <<254, 255, 65>>, <<239, 187, 191, 65>>, <<94, 67, 255, 254, 65>>, <<94, 69, 239, 187, 191, 65>>, <<94, 76, 254, 255, 65>>}
 
